@@ -472,6 +472,11 @@ def run(rep, ctx):
             return int(env["none"])
         if r == "be[-1]":
             return env["c"]
+        if r in ("*__errno_location()", "errno"):
+            # strtod sets errno = ERANGE for overflow AND for every subnormal (finite) result
+            return env["errno"]
+        if k == "DeclRefExpr" and n.get("name") == "ERANGE" or (n.get("m") == "ERANGE" and "cv" in n):
+            return 34
         if k == "DeclRefExpr" and n.get("name") == "c":
             return env["cvar"]
         if k in ("IntegerLiteral", "CharacterLiteral"):
@@ -497,16 +502,20 @@ def run(rep, ctx):
             return int(not dv(kids(n)[0], env))
         raise AnalysisBroken("C05.P1: expression `%s` outside the fragment" % r[:50])
     wrong = []
+    uses_errno = any("__errno_location" in render(x) for x in walk(kids(rets[0])[0]))
     for none in (0, 1):
         for c in range(256):
-            cc = c - 256 if c >= 128 else c       # plain char is signed on the target
-            rej = dv(kids(rets[0])[0], dict(none=none, c=cc, cvar=None))
-            want = bool(none) or not (chr(c).isdigit() and c < 128 or c == ord("."))
-            if bool(rej) != want:
-                wrong.append((none, c, rej))
+            for en in ((0, 34) if uses_errno else (0,)):
+                cc = c - 256 if c >= 128 else c       # plain char is signed on the target
+                rej = dv(kids(rets[0])[0], dict(none=none, c=cc, cvar=None, errno=en))
+                want = bool(none) or not (chr(c).isdigit() and c < 128 or c == ord("."))
+                if bool(rej) != want:
+                    wrong.append((none, c, rej, en))
     p1.check(not wrong, "decstring-cases", short_loc(DEC.loc), "512 (nothing parsed, last character) cases: accepted iff something was parsed "
              "and the token ends in a digit or '.' (so 'inf', 'nan', 'infinity' are rejected)",
-             "decstring %s a token ending in %r" % ("accepts" if wrong and not wrong[0][2] else "rejects", chr(wrong[0][1]) if wrong else ""))
+             "decstring %s a token ending in %r%s" % ("accepts" if wrong and not wrong[0][2] else "rejects", chr(wrong[0][1]) if wrong else "",
+                                                       " when strtod reported ERANGE, which it does for every subnormal (finite) value"
+                                                       if wrong and wrong[0][3] else ""))
     sd = [n for n in DEC.walk() if n["k"] == "CallExpr" and n.get("callee", "").endswith("strtod")]
     p1.check(len(sd) == 1 and [render(a) for a in call_args(sd[0])] == ["buf", "&be"], "decstring-strtod", short_loc(DEC.loc),
              "the value and the end pointer come from strtod(buf, &be)")
